@@ -113,6 +113,10 @@ def gen_script(rng: random.Random, npoints: int, length: int, ops=("f", "g", "fg
             script.append({"op": "f", "pts": [rng.randrange(-1, npoints) for _ in range(k)], "batch": True})
         else:
             script.append({"op": op, "pts": [rng.randrange(-1, npoints)]})
+            # a gradient request right after a function request at the same point
+            # exercises the cached-function path of the ensemble evaluator
+            if op == "f" and "g" in ops and len(script) < length and rng.random() < 0.5:
+                script.append({"op": "g", "pts": list(script[-1]["pts"])})
     return script
 
 
